@@ -53,7 +53,7 @@ impl Property for C13 {
          oracle = brute force over EVERY lattice point of the box and EVERY integer slack value in the new variable's bounds, in exact rational arithmetic; non-trivial = converted, >=2 variables, both feasible and infeasible lattice points; distinct = sha256(instance, call)"
     }
     fn required_labels(&self) -> Vec<String> {
-        ["outcome=converted", "outcome=relaxed", "outcome=infeasible", "outcome=range-exceeded", "reject=unknown-id", "reject=equality", "reject=continuous", "reject=undefined-variable", "reject=infinite-range", "rational-coeff", "quadratic", "op=convert", "op=add-slack", "other-constraints", "negative-box", "binary-variable", "unsorted-variable-list", "limit=needed", "limit=needed-1", "second-conversion", "integer-linear-max-exactly-zero"].iter().map(|s| s.to_string()).collect()
+        ["outcome=converted", "outcome=relaxed", "outcome=infeasible", "outcome=range-exceeded", "reject=unknown-id", "reject=equality", "reject=continuous", "reject=undefined-variable", "reject=infinite-range", "rational-coeff", "quadratic", "op=convert", "op=add-slack", "other-constraints", "negative-box", "binary-variable", "unsorted-variable-list", "limit=needed", "limit=needed-1", "second-conversion", "integer-linear-max-exactly-zero", "binary-fixed-by-bound", "one-hot-hint-of-relaxed-constraint"].iter().map(|s| s.to_string()).collect()
     }
     fn cases(&self, tier: Tier) -> usize {
         match tier {
@@ -85,10 +85,13 @@ impl Property for C13 {
         let idbase = *t.pick(&[0u64, 1, 10]);
         let id_step: u64 = if t.coin() { 1 } else { 2 };
         let var_order_seed = t.byte();
+        // all variables binary, members of a one-hot set whose constraint has been relaxed earlier (the hint stays)
+        let hinted = t.p(40);
         for i in 0..nv {
-            let binary = t.p(64);
+            let binary = hinted || t.p(64);
             let (lo, hi) = if binary {
-                (0, 1)
+                // a binary variable may be fixed through an explicit bound [0,0] or [1,1]
+                *t.pick(&[(0, 1), (0, 1), (0, 1), (0, 1), (0, 0), (1, 1)])
             } else {
                 let lo = t.int_around(0, -4, 4);
                 (lo, lo + t.choice(7) as i64)
@@ -203,7 +206,10 @@ impl Property for C13 {
             let mut dv = v1::DecisionVariable::default();
             dv.id = v.id;
             dv.kind = v.kind;
-            dv.bound = if v.kind == KIND_BINARY && t.coin() { None } else { Some(crate::mk::bound(v.lo as f64, v.hi as f64)) };
+            dv.bound = if v.kind == KIND_BINARY && (v.lo, v.hi) == (0, 1) && t.coin() { None } else { Some(crate::mk::bound(v.lo as f64, v.hi as f64)) };
+            if v.kind == KIND_BINARY && v.lo == v.hi {
+                ctx.label("binary-fixed-by-bound");
+            }
             inst.decision_variables.push(dv);
         }
         let cid: u64 = *t.pick(&[0u64, 3, 17]);
@@ -233,6 +239,24 @@ impl Property for C13 {
             rc.removed_reason = "earlier".into();
             inst.removed_constraints.push(rc);
             others = true;
+        }
+        if hinted && nv >= 2 {
+            // sum x_i - 1 = 0, relaxed; its one-hot hint is still recorded on the instance
+            let mut o = v1::Constraint::default();
+            o.id = cid + 3;
+            o.equality = EQ_ZERO;
+            o.function = Some(crate::mk::flin(crate::mk::linear(vars.iter().map(|v| (v.id, 1.0)).collect(), -1.0)));
+            let mut rc = v1::RemovedConstraint::default();
+            rc.constraint = Some(o);
+            rc.removed_reason = "relaxed".into();
+            inst.removed_constraints.push(rc);
+            let mut oh = v1::OneHot::default();
+            oh.constraint_id = cid + 3;
+            oh.decision_variables = vars.iter().map(|v| v.id).collect();
+            let mut h = v1::ConstraintHints::default();
+            h.one_hot_constraints.push(oh);
+            inst.constraint_hints = Some(h);
+            ctx.label("one-hot-hint-of-relaxed-constraint");
         }
         if others {
             ctx.label("other-constraints");
